@@ -52,6 +52,9 @@ istream& Signal::operator >> (istream& is, Basis& basis)
 	basis = Circular; break;
       case Elliptical:
 	basis = Elliptical; break;
+      default:
+	// an integer that is not a basis code is malformed input
+	is.setstate (ios::failbit); break;
       }
     }
 
